@@ -85,6 +85,15 @@ Theorem C12_names_document_layout : forall t, In t color_table ->
   c_name t = documented_name t /\ (is_rgb t = true -> bpp t = 8 * ((used_bits t + 7) / 8)).
 Proof. exact c12_names_document_layout. Qed.
 
+(* the eight named constants of RgbColor (BLACK RED GREEN BLUE YELLOW MAGENTA CYAN WHITE) have the channels their names say *)
+Theorem C12_named_constants : forall t, In t color_table -> is_rgb t = true ->
+  map (fun c => (get_r t c, get_g t c, get_b t c)) (named_colors t) =
+  [(0, 0, 0); (max_r t, 0, 0); (0, max_g t, 0); (0, 0, max_b t);
+   (max_r t, max_g t, 0); (max_r t, 0, max_b t); (0, max_g t, max_b t); (max_r t, max_g t, max_b t)] /\
+  Forall (valid t) (named_colors t) /\
+  nth 0 (named_colors t) 0 = color_black t /\ nth 7 (named_colors t) 0 = color_white t.
+Proof. exact c12_named_constants. Qed.
+
 (* the quantifier is not empty: 14 types, 1 binary, 3 gray, 6 RGB-ordered, 4 BGR-ordered, distinct names *)
 Theorem C12_table_census :
   length color_table = 14%nat /\
